@@ -7,8 +7,9 @@ R09.2 folded operation   : the constant computed in each arm is the oracle's ope
 R09.3 word arithmetic    : every known-word operation is total (no panicking primitive, divisor / shift
                            guards present), exact (no narrowing of an operand) and is the oracle's
                            primitive with the oracle's signedness and operand order (tables/word_ops.tsv).
-R09.4 idempotence support: a folded node is a leaf (KnownData) and the fold recurses through the
-                           transformer (children are folded before the node).
+R09.4 bottom-up          : in every arm the operands consulted with as_word(), and the children of the rebuilt
+                           node, have been passed through the recursive fold first (so constant sub-expressions are
+                           folded before their parent and a second fold changes nothing).
 """
 from .. import facts as F
 from .. import tables
@@ -46,6 +47,9 @@ TRAIT_OPS = {
 DUAL = {"lt": "gt", "gt": "lt", "signed_lt": "signed_gt", "signed_gt": "signed_lt"}
 
 
+CHILD_FIELDS = {}
+
+
 def origin(t):
     """Field of the matched node a term derives from, looking through the transformer / clone."""
     while isinstance(t, tuple):
@@ -59,6 +63,20 @@ def origin(t):
             return None
         return None
     return None
+
+
+def folded(t):
+    """Does the term pass through the recursive fold (transform_data / constant_fold) on its way from the matched field?"""
+    while isinstance(t, tuple):
+        if t[0] == "call" and isinstance(t[1], str) and t[2]:
+            name = t[1]
+            if "::transform_data" in name or "::constant_fold" in name:
+                return True
+            if "::clone" in name:
+                t = t[2][0]
+                continue
+        return False
+    return False
 
 
 def word_origin(t):
@@ -127,6 +145,8 @@ def analyse_arm(fx, rep, b, arm, oracle):
     variant_fields = [f["name"] for f in fx.variant(SVD, V)["fields"]]
 
     rebuilt = []  # (variant, {field: origin}, where)
+    rebuilt_folded = []  # ({field: bool}, where)
+    inspected = []  # (field, folded?, where): operands consulted with as_word()
     folds = []  # (op, fields, where)
     problems = []
 
@@ -155,6 +175,7 @@ def analyse_arm(fx, rep, b, arm, oracle):
                     el[0] == "call" and isinstance(el[1], str) and "::as_word" in el[1]
                 ):
                     srcs.append(origin(el[2][0]))
+                    inspected.append((origin(el[2][0]), folded(el[2][0]), F.loc(e["span"])))
                 else:
                     srcs.append(None)
             visit(e["scrut"], env)
@@ -187,6 +208,7 @@ def analyse_arm(fx, rep, b, arm, oracle):
                 folds.append((fields.get("value"), F.loc(e["span"])))
             else:
                 rebuilt.append((W, {f: origin(t) for f, t in fields.items()}, F.loc(e["span"])))
+                rebuilt_folded.append(({f: folded(t) for f, t in fields.items()}, F.loc(e["span"])))
         if k in ("Call", "MethodCall"):
             cd = F.callee_def(e) or ""
             if cd.endswith("SymbolicValueData::<AuxData>::new_known") and F.call_args(e):
@@ -217,6 +239,20 @@ def analyse_arm(fx, rep, b, arm, oracle):
         rep.oblige(ok, "R09.1", f"rebuild:{V}", w, msg, sample={"rule": "R09.1", "arm": V, "rebuilt": W, "fields": fo, "at": w})
     if not rebuilt:
         rep.oblige(False, "R09.1", f"rebuild:{V}", where, f"arm for `{V}` has no recognisable rebuild of the same operator (unrecognised fold idiom)")
+
+    # R09.4 bottom-up: the operands consulted for constness, and the children of a rebuilt node, are the *folded* children
+    unf = sorted({f for f, fo, w in inspected if f is not None and not fo})
+    rep.oblige(
+        not unf,
+        "R09.4",
+        f"bottom-up:{V}",
+        where,
+        f"arm for `{V}` tests operand(s) {unf} for constness before folding them: a constant sub-expression below this node is not folded into it (folding is no longer bottom-up / idempotent)",
+        sample={"rule": "R09.4", "arm": V, "operands_consulted": sorted({f for f, _, _ in inspected if f}), "folded_first": not unf},
+    )
+    for fo, w in rebuilt_folded:
+        raw = sorted(f for f in variant_fields if f in fo and not fo[f] and f in CHILD_FIELDS.get(V, variant_fields))
+        rep.oblige(not raw, "R09.4", f"rebuild-folded:{V}", w, f"arm for `{V}` rebuilds the node with unfolded child(ren) {raw}: constant sub-expressions below it stay unfolded")
 
     # R09.2 ---------------------------------------------------------------------------------
     want = oracle.get(V)
@@ -298,6 +334,9 @@ def derived_from(e, env_names, names):
     return False
 
 
+NATIVE_INTS = {"u8", "u16", "u32", "u64", "u128", "usize", "i8", "i16", "i32", "i64", "i128", "isize"}
+
+
 def check_word_ops(fx, rep):
     rows = {r[0]: r[1:] for r in tables.read("word_ops.tsv")}
     bodies = word_op_bodies(fx)
@@ -353,6 +392,10 @@ def check_word_ops(fx, rep):
                 prim_sites.append((o, roots(n["l"]), roots(n["r"]), "I256" in (n["l"].get("ty") or ""), ps, n))
             elif k == "Unary" and n.get("op") == "Not" and is_ethnum_ty(n["e"].get("ty")):
                 prim_sites.append(("Not", roots(n["e"]), set(), False, ps, n))
+            elif k in ("MethodCall", "Call") and (n.get("ty") or "").strip() in NATIVE_INTS and any(is_ethnum_ty((a.get("ty") or "").lstrip("&").strip()) for a in F.call_args(n)) and not (k == "MethodCall" and is_ethnum_ty(n.get("recv_ty")) and n["method"] in NARROW):
+                # `rhs.into()` / `u32::from(rhs)` / `usize::try_from(..)`: a conversion of a 256-bit operand to a native integer
+                nm = n["method"] if k == "MethodCall" else (F.callee_def(n) or "call").split("::")[-1]
+                prim_sites.append(("narrow:" + nm + "->" + n["ty"].strip(), set().union(*[roots(a) for a in F.call_args(n)]), set(), False, ps, n))
             elif k == "MethodCall" and is_ethnum_ty(n.get("recv_ty")):
                 m = n["method"]
                 sgn = "I256" in n.get("recv_ty", "")
